@@ -177,9 +177,67 @@ fn long_sequence(rng: &mut Rng) -> &'static str {
     Box::leak(s.into_boxed_str())
 }
 
+/// a character whose code point has the low byte `b` (what `ch as u8` truncates it to), from one
+/// of several planes
+pub fn alias_char(rng: &mut Rng, b: u8) -> char {
+    for _ in 0..8 {
+        let base = [0x100u32, 0x200, 0x400, 0x1e00, 0x2100, 0x3000, 0xff00, 0x1f600, 0x1d400][rng.below(9)];
+        if let Some(c) = char::from_u32(base + b as u32) {
+            if !c.is_control() {
+                return c;
+            }
+        }
+    }
+    '\u{11b}'
+}
+
+/// one of the byte sequences the crate looks for (`ESC \`, `ESC [`, `ESC ]`, BEL, a CSI, CR LF,
+/// space, hyphen, SHY), with each character independently replaced — one time in two — by a
+/// character that only shares its low byte: code that compares truncated code points, or keeps a
+/// window of "the last two bytes", takes the impostors for the real thing
+pub fn alias_seq(rng: &mut Rng) -> String {
+    let pat: &[u8] = *rng.pick(&[&b"\x1b\\"[..], b"\x1b[", b"\x1b]", b"\x07", b"\x1b[0m", b"\r\n", b" ", b"-", b"\xad", b"\x1b\\ab", b"m", b"@~"]);
+    let mut s = String::new();
+    let mut any = false;
+    for &b in pat {
+        if rng.chance(1, 2) {
+            s.push(alias_char(rng, b));
+            any = true;
+        } else if b < 0x80 && b != 0x1b && b != 0x07 && b != b'\r' && b != b'\n' {
+            s.push(b as char);
+        } else {
+            s.push(alias_char(rng, b));
+            any = true;
+        }
+    }
+    if !any {
+        s.push(alias_char(rng, 0x1b));
+    }
+    s
+}
+
+/// a well-formed OSC / CSI whose payload holds such impostors followed by visible payload
+fn sequence_with_aliases(rng: &mut Rng) -> &'static str {
+    let a = alias_seq(rng);
+    let b = alias_seq(rng);
+    let s = match rng.below(4) {
+        0 => format!("\x1b]0;{}xy{}z\x07", a, b),
+        1 => format!("\x1b]8;;http://{}/{}\x1b\\", a, b),
+        2 => format!("\x1b]{}{}\x07", a, b),
+        _ => format!("\x1b[{}", "1;31m"),
+    };
+    Box::leak(s.into_boxed_str())
+}
+
 fn token(rng: &mut Rng, fl: Flavor) -> &'static str {
     if matches!(fl, Flavor::AnsiOk | Flavor::Mixed) && rng.chance(1, 120) {
         return long_sequence(rng);
+    }
+    if matches!(fl, Flavor::AnsiOk | Flavor::AnsiBad | Flavor::Mixed) && rng.chance(1, 20) {
+        return sequence_with_aliases(rng);
+    }
+    if matches!(fl, Flavor::Wide | Flavor::Mixed) && rng.chance(1, 30) {
+        return Box::leak(alias_seq(rng).into_boxed_str());
     }
     match fl {
         Flavor::Plain => *rng.pick(PLAIN),
@@ -343,7 +401,7 @@ pub fn penalties(rng: &mut Rng) -> [usize; 5] {
         3 => [big_penalty(rng), big_penalty(rng), rng.below(8), big_penalty(rng), big_penalty(rng)],
         0 => [0, 0, 0, 0, 0],
         1 => [rng.below(5), rng.below(5), rng.below(5), rng.below(5), rng.below(5)],
-        2 => [rng.below(2000), rng.below(5000), rng.below(8), rng.below(50), rng.below(50)],
+        2 => [rng.below(2000), rng.below(5000), if rng.chance(1, 2) { rng.below(8) } else { rng.below(130) }, rng.below(50), rng.below(50)],
         _ => DEFAULT_PEN,
     }
 }
